@@ -133,7 +133,7 @@ PROPS = {
         "level_text": "CompilePackage, LintFile and LintAll run in journalled children over in-memory bundles: (1) an isolation matrix of several hundred single-feature packages (every field type x qualifier form x array/map, every rule kind on every field type, every list rule, references, inline types, declarations, services with every HTTP method, topics, entities, import forms, multi-file and proto<->j5s packages), each in a package that contains nothing else - every one must compile and link; (2) random multi-package bundles of the documented language - must compile; (3) semantic-fault files, token-level mutations, truncations and random text - no panic, no fatal error, CPU work bound; every diagnostic that names a source file of the bundle must point inside that file.",
         "level_note": "'Documented language' is what README.md, internal/j5s/README.md, J5SchemaSpec + the j5.schema.v1/j5.sourcedef.v1 protos and the repository's tests show; generator productions were calibrated against the repository's own parser. Diagnostics about generated .j5s.proto files (protobuf linker) are counted, not judged.",
         "rule": "one evaluation per bundle; every bundle is non-trivial; distinct by hash of the concatenated sources.",
-        "floors": ["c07:isolation", "c07:random-valid", "c07:random-ruled", "c07:semantic-fault", "c07:token-mutation", "c07:truncation", "c07:random-text"],
+        "floors": ["c07:isolation", "c07:random-valid", "c07:random-ruled", "c07:random-entity", "c07:random-api", "c07:semantic-fault", "c07:token-mutation", "c07:truncation", "c07:random-text"],
         "assumptions": COMMON_ASSUMPTIONS + ["bundles are served through an in-memory LocalFileSource and an empty DependencySet, the interfaces the j5 CLI uses"],
     },
     "C14": {
